@@ -136,6 +136,11 @@ func run(c *core.Case) {
 	r := c.Rand
 	thorough := c.Tier == "thorough"
 	o := sess.Opts{S2S: r.Intn(2) == 0}
+	if r.Intn(6) == 0 {
+		// a stream with another content namespace (XEP-0114 component)
+		o = sess.Opts{Component: true, Local: "comp.example.net", Remote: "example.net"}
+		c.Count("component_streams", 1)
+	}
 	nActors := 2 + r.Intn(3)
 	nOps := 25 + r.Intn(30)
 	if thorough {
@@ -295,6 +300,11 @@ func run(c *core.Case) {
 		for k := 0; k < nInject; k++ {
 			id := fmt.Sprintf("h%d", k)
 			m := modes[ir.Intn(len(modes))]
+			if o.Component && m == "none" {
+				// automatic replies are a matter of the client and server
+				// namespaces (C07)
+				m = "tokens"
+			}
 			injMu.Lock()
 			injMode[id] = m
 			injMu.Unlock()
@@ -464,7 +474,7 @@ func run(c *core.Case) {
 		}
 		okOps++
 		c.Count("ok:"+rec.Entry, 1)
-		c.Sig("%s/%s/size%d/stanza=%v/s2s=%v", rec.Entry, rec.Form, rec.Size, rec.stanza, o.S2S)
+		c.Sig("%s/%s/size%d/stanza=%v/s2s=%v/comp=%v", rec.Entry, rec.Form, rec.Size, rec.stanza, o.S2S, o.Component)
 		switch len(els) {
 		case 0:
 			if rec.Actor >= 0 {
@@ -541,7 +551,7 @@ func trunc(s string) string {
 
 // Prop returns the C05 check.
 func Prop() *core.Prop {
-	req := []string{"histories", "invalid_argument_calls", "handler_replies_after_refused_writes", "calls_overlapping_another_actor", "elements_spanning_several_writes", "auto_replies", "wire_stanzas"}
+	req := []string{"histories", "component_streams", "invalid_argument_calls", "handler_replies_after_refused_writes", "calls_overlapping_another_actor", "elements_spanning_several_writes", "auto_replies", "wire_stanzas"}
 	for _, e := range []string{"Send", "SendElement", "Encode", "EncodeElement", "TokenWriter", "HandlerReply",
 		"SendIQ", "SendIQElement", "EncodeIQ", "EncodeIQElement", "UnmarshalIQ", "UnmarshalIQElement", "IterIQ", "IterIQElement",
 		"SendMessage", "SendMessageElement", "EncodeMessage", "EncodeMessageElement",
